@@ -100,5 +100,56 @@ func init() {
 			c.Fail("events-exact", []string{"F-16c replay"}, fmt.Sprintf("unexpected event sequence %v", got), "")
 		}
 		_ = bytes.MinRead
+		// second witness of the same root cause, no second client needed: with a store byte limit a message larger
+		// than the limit is evicted by the size enforcer INSIDE AddMessage (its deleted event is emitted there), and
+		// Deliver emits its stored event afterwards.
+		host2 := extension.NewHost()
+		var mu2 sync.Mutex
+		var order2 []string
+		host2.Events.AfterMessageStored.AddListener("verif", func(m event.MessageMetadata) {
+			mu2.Lock()
+			order2 = append(order2, "stored:"+m.ID)
+			mu2.Unlock()
+		})
+		host2.Events.AfterMessageDeleted.AddListener("verif", func(m event.MessageMetadata) {
+			mu2.Lock()
+			order2 = append(order2, "deleted:"+m.ID)
+			mu2.Unlock()
+		})
+		st2, err := mem.New(config.Storage{Params: map[string]string{"maxkb": "1"}}, host2)
+		if err != nil {
+			return
+		}
+		mgr2 := &message.StoreManager{AddrPolicy: ap, Store: st2, ExtHost: host2}
+		big := append([]byte("Subject: big\r\n\r\n"), bytes.Repeat([]byte("x"), 2000)...)
+		if err := mgr2.Deliver(org, []*policy.Recipient{rc}, "Received: from x ([y]) by z\r\n", big); err != nil {
+			c.Note("F-16c replay 2: Deliver: %v", err)
+			return
+		}
+		deadline = time.Now().Add(2 * time.Second)
+		for time.Now().Before(deadline) {
+			mu2.Lock()
+			n := len(order2)
+			mu2.Unlock()
+			if n >= 2 {
+				break
+			}
+			time.Sleep(time.Millisecond)
+		}
+		mu2.Lock()
+		got2 := append([]string{}, order2...)
+		mu2.Unlock()
+		c.Compared(1)
+		c.Count("F-16c-replay-self-eviction", true)
+		if len(got2) == 2 && got2[0] == "deleted:1" && got2[1] == "stored:1" {
+			if c.IsOpen("F-16c") {
+				c.KnownStillFails("F-16c")
+			} else {
+				c.Fail("stored-before-deleted", []string{"memory store with maxkb=1; Deliver a 2 KB message to box@example.com (it is evicted at once by the size limit)"},
+					fmt.Sprintf("listener saw %v", got2), "F-16c")
+			}
+		} else if !(len(got2) == 2 && got2[0] == "stored:1" && got2[1] == "deleted:1") {
+			c.Fail("events-exact", []string{"F-16c replay 2 (self-eviction)"}, fmt.Sprintf("unexpected event sequence %v", got2), "")
+		}
 	}
 }
